@@ -35,6 +35,7 @@ REGIONS = {"count": "self._stats[0, -1]", "sums": "self._stats[0, :-1]", "square
 
 def run(ctx):
     ctx.rule(additive)
+    ctx.rule(blocked_loops)
     ctx.rule(acc_values)
     ctx.rule(apply_values)
     ctx.rule(slots)
@@ -503,6 +504,12 @@ def _ones(e):
             return x.args[1]
         return None
     return SC.transform(SC.distribute_reshape(e), fn)
+
+
+def blocked_loops(ctx, R="R-C16-blocked"):
+    from . import blocked
+    c = _std(ctx.prog)
+    blocked.check(ctx, R, [m for m in c.methods.values()], "a block-wise accumulation / application covers every feature vector")
 
 
 def derived_state(ctx, R="R-C16-derived-state"):
